@@ -139,7 +139,7 @@ func TestVerifRace(t *testing.T) {
 
 	deadline := time.Now().Add(time.Duration(ms) * time.Millisecond)
 	var wg sync.WaitGroup
-	var nReq, nAdmin, nRead atomic.Int64
+	var nReq, nAdmin, nRead, adminErrs atomic.Int64
 	var hist [6]atomic.Int64 // 2xx, 429, 500, 502, 503, other
 	strategies := []string{"round_robin", "least_connections", "weighted_round_robin", "ip_hash", "ip_hash_consistent"}
 
@@ -191,23 +191,76 @@ func TestVerifRace(t *testing.T) {
 		go func(g int) {
 			defer wg.Done()
 			rng := rand.New(rand.NewSource(seed*100 + 50 + int64(g)))
-			call := func(method, path, body string) {
+			call := func(method, path, body string) (int, string) {
 				r := httptest.NewRequest(method, path, strings.NewReader(body))
 				r.RemoteAddr = "192.0.2.7:999"
 				r.Header.Set("Authorization", "Bearer tok")
-				admin.ServeHTTP(httptest.NewRecorder(), r)
+				rec := httptest.NewRecorder()
+				admin.ServeHTTP(rec, r)
 				nAdmin.Add(1)
+				return rec.Code, rec.Body.String()
+			}
+			// this actor is the only one that adds / removes backend x<g>: what it was told
+			// (201 added, 200 removed) must be what the listing shows, whatever the other
+			// actors (strategy switches, the other actor's adds and removes) do meanwhile
+			mine := fmt.Sprintf("x%d", g)
+			present := false
+			listed := func() bool {
+				_, body := call("GET", "/v1/backends", "")
+				return strings.Contains(body, `"`+mine+`"`)
+			}
+			if os.Getenv("VERIF_RACE_PROFILE") == "admin" {
+				// admin storm: add / list / remove / list in a tight loop while another goroutine
+				// cycles the strategies without pause
+				for time.Now().Before(deadline) {
+					code, _ := call("POST", "/v1/backends/add", fmt.Sprintf(`{"name":%q,"address":%q,"weight":2}`, mine, backends[3].URL))
+					if code != 201 {
+						adminErrs.Add(1)
+						t.Errorf("VERIF-ADMIN add of absent backend %s answered %d", mine, code)
+					}
+					if !listed() {
+						adminErrs.Add(1)
+						t.Errorf("VERIF-ADMIN lost update: backend %s was added (201) but is not listed", mine)
+					}
+					code, _ = call("POST", "/v1/backends/remove", fmt.Sprintf(`{"name":%q}`, mine))
+					if code != 200 {
+						adminErrs.Add(1)
+						t.Errorf("VERIF-ADMIN remove of %s answered %d", mine, code)
+					}
+					if listed() {
+						adminErrs.Add(1)
+						t.Errorf("VERIF-ADMIN lost update: backend %s was removed (200) but is still listed", mine)
+						call("POST", "/v1/backends/remove", fmt.Sprintf(`{"name":%q}`, mine))
+					}
+					if adminErrs.Load() > 5 {
+						return
+					}
+				}
+				return
 			}
 			for time.Now().Before(deadline) {
 				switch rng.Intn(6) {
 				case 0:
-					call("POST", "/v1/backends/add", fmt.Sprintf(`{"name":"x%d","address":%q,"weight":%d}`, g, backends[3].URL, 1+rng.Intn(5)))
+					code, _ := call("POST", "/v1/backends/add", fmt.Sprintf(`{"name":%q,"address":%q,"weight":%d}`, mine, backends[3].URL, 1+rng.Intn(5)))
+					if code == 201 {
+						present = true
+					} else if !present && code != 201 {
+						adminErrs.Add(1)
+						t.Errorf("VERIF-ADMIN add of absent backend %s answered %d", mine, code)
+					}
 				case 1:
-					call("POST", "/v1/backends/remove", fmt.Sprintf(`{"name":"x%d"}`, g))
+					code, _ := call("POST", "/v1/backends/remove", fmt.Sprintf(`{"name":%q}`, mine))
+					if code == 200 {
+						present = false
+					}
 				case 2:
 					call("POST", "/v1/strategy", fmt.Sprintf(`{"strategy":%q}`, strategies[rng.Intn(len(strategies))]))
 				case 3:
-					call("GET", "/v1/backends", "")
+					if got := listed(); got != present {
+						adminErrs.Add(1)
+						t.Errorf("VERIF-ADMIN lost update: backend %s present=%v according to the answers this actor received, listed=%v", mine, present, got)
+						present = got
+					}
 				case 4:
 					call("GET", "/v1/metrics", "")
 				case 5:
@@ -230,6 +283,20 @@ func TestVerifRace(t *testing.T) {
 				time.Sleep(time.Millisecond)
 			}
 		}(g)
+	}
+	if os.Getenv("VERIF_RACE_PROFILE") == "admin" {
+		wg.Add(1)
+		go func() {
+			defer wg.Done()
+			i := 0
+			for time.Now().Before(deadline) {
+				r := httptest.NewRequest("POST", "/v1/strategy", strings.NewReader(fmt.Sprintf(`{"strategy":%q}`, strategies[i%len(strategies)])))
+				r.RemoteAddr = "192.0.2.7:999"
+				r.Header.Set("Authorization", "Bearer tok")
+				admin.ServeHTTP(httptest.NewRecorder(), r)
+				i++
+			}
+		}()
 	}
 	time.Sleep(time.Until(deadline))
 	stopped := make(chan struct{})
